@@ -249,3 +249,51 @@ def pj1(proj, rep, modules):
                         n -= 1
     rep.count('PJ1.sites', n)
     return n
+
+
+# ------------------------------------------------------------------------------------------------ HM2
+RULE_HM2 = ('HM2: a change of basis `L @ A @ R` whose outer factors derive from one matrix V (one of them transposed) is the unitary similarity V^dagger A V '
+            '(or V A V^dagger): the conjugate sits on the TRANSPOSED factor. `V.T @ A @ V.conj()` puts it on the other one - identical for real V, but for a '
+            'complex V it is conj(V^dagger conj(A) V): the blocks extracted afterwards are not invariant subspaces.')
+
+
+def hm2(proj, rep, modules):
+    rep.rule('HM2', RULE_HM2)
+    n = 0
+    for mq in modules:
+        m = proj.mod(mq)
+        rep.touch(m)
+        for fi in [f for f in proj.funcs.values() if f.module is m]:
+            for b in ast.walk(fi.node):
+                # (L @ A) @ R
+                if not (isinstance(b, ast.BinOp) and isinstance(b.op, ast.MatMult) and isinstance(b.left, ast.BinOp) and isinstance(b.left.op, ast.MatMult)):
+                    continue
+                L, A, R = b.left.left, b.left.right, b.right
+                ln, lt, lc = _base_of(L)
+                rn, rt, rc = _base_of(R)
+                if ln is None or ln != rn or lt == rt:
+                    continue
+                an = _base_of(A)[0]
+                if an == ln:
+                    continue
+                n += 1
+                st = b
+                while not isinstance(st, ast.stmt):
+                    st = st._parent
+                dag_c, other_c = (lc, rc) if lt else (rc, lc)
+                if dag_c and not other_c:
+                    rep.ok('HM2', fi.qual, f'`{ast.unparse(b)[:70]}`: dagger on the transposed factor', m, st)
+                elif other_c and not dag_c:
+                    rep.violation('HM2', fi.qual, f'`{ast.unparse(b)[:80]}`: the conjugate is on the NON-transposed factor of the change of basis by {ln}: for a complex {ln} this is '
+                                  f'not the unitary similarity {ln}^dagger A {ln}, so the transformed matrices are not block diagonal in the eigenbasis', m, st)
+                elif not dag_c and not other_c:
+                    cx = _complexness(fi.node, ln, st, set(fi.all_params), proj, m)
+                    if cx == 'complex':
+                        rep.violation('HM2', fi.qual, f'`{ast.unparse(b)[:80]}`: {ln} can be complex but neither factor is conjugated', m, st)
+                    else:
+                        rep.ok('HM2', fi.qual, f'`{ast.unparse(b)[:70]}`: real orthogonal change of basis (no conjugate on either side)', m, st)
+                else:
+                    rep.undecided('HM2', fi.qual, f'`{ast.unparse(b)[:70]}`: both factors conjugated', m, st)
+                    n -= 1
+    rep.count('HM2.similarity_transforms', n)
+    return n
